@@ -51,67 +51,54 @@ def d1(ctx, prog):
 
 
 def d2(ctx, prog):
-    from .. import inline
-    tabs = {'SBOX', 'INV_SBOX', 'SHIFT_ROWS', 'INV_SHIFT_ROWS'}
-    for name, table in (('sub_bytes', 'SBOX'), ('inv_sub_bytes', 'INV_SBOX')):
-        f = inline.inlined(prog, prog.need_func(A, name), skip={'_is_bytes_of_len'})
-        paths = astutil.return_paths(f.node)
-        p = f.params[0]
-        key = f'{f.key}::return'
-        if not paths or len(paths) != 1 or paths[0][1] is None:
-            ctx.undecided('C05-D2', key, 'returned expression not derivable', f.where())
+    """the byte-wise primitives by provenance evaluation (sa.provarr) on a two-item batch and a single state: sub_bytes /
+    inv_sub_bytes look byte i up in their table and nothing else; shift_rows / inv_shift_rows move byte FIPS[i] to position i
+    within its own state; add_round_key is the xor of the two arguments byte for byte."""
+    isr = [fips.SHIFT_ROWS.index(i) for i in range(16)]
+    for name, kind, ref in (('sub_bytes', 'table', 'SBOX'), ('inv_sub_bytes', 'table', 'INV_SBOX'), ('shift_rows', 'gather', fips.SHIFT_ROWS), ('inv_shift_rows', 'gather', isr)):
+        f = prog.need_func(A, name)
+        key = f'{f.key}::' + ('return' if kind == 'table' else 'gather')
+        bad = None
+        try:
+            for shape in ((2, 16), (16,)):
+                y = MixEval(prog, f.mod).run(f, [pa.PArr.inputs(shape)])
+                if not isinstance(y, pa.PArr) or y.shape != tuple(shape):
+                    bad = bad or f'{name} on a {shape} state returns {getattr(y, "shape", type(y).__name__)}'
+                    continue
+                for o, got in enumerate(y.flat):
+                    base, j = o - o % 16, o % 16
+                    want = frozenset([(ref, o)]) if kind == 'table' else frozenset([('ID', base + ref[j])])
+                    if got != want and bad is None:
+                        g_ = sorted(got)
+                        if kind == 'table':
+                            bad = f'{name}: output byte {j} is {g_}; it must be {ref}[input byte {j}] and nothing else'
+                        else:
+                            bad = f'{name}: output byte {j} comes from {g_}; FIPS-197 moves input byte {ref[j]} of the same state there'
+        except pa.Unknown as e:
+            ctx.undecided('C05-D2', key, f'not evaluable: {e}', f.where())
             continue
-        e = paths[0][1]
-        # TABLE[state] / numpy.take(TABLE, state) / TABLE.take(state)
-        tab = idx = None
-        if isinstance(e, ast.Subscript) and isinstance(e.value, ast.Name):
-            tab, idx = e.value.id, e.slice
-        elif isinstance(e, ast.Call) and norm(e.func).split('.')[-1] == 'take' and len(e.args) >= 1:
-            if isinstance(e.func, ast.Attribute) and isinstance(e.func.value, ast.Name) and e.func.value.id in tabs:
-                tab, idx = e.func.value.id, e.args[0]
-            elif len(e.args) >= 2 and isinstance(e.args[0], ast.Name):
-                tab, idx = e.args[0].id, e.args[1]
-        if tab in tabs and idx is not None and norm(idx) == p:
-            ctx.check(tab == table, 'C05-D2', key, f'{name} looks the state up in {tab}, not in {table}', f'{name} = {table}[state]', f.where())
+        if bad:
+            ctx.fail('C05-D2', key, bad, f.where())
         else:
-            ctx.undecided('C05-D2', key, f'{name} returns `{norm(e)[:60]}`: not a lookup of the state in one of the S-box tables', f.where())
-    for name, table in (('shift_rows', 'SHIFT_ROWS'), ('inv_shift_rows', 'INV_SHIFT_ROWS')):
-        f = inline.inlined(prog, prog.need_func(A, name), skip={'_is_bytes_of_len'})
-        paths = astutil.return_paths(f.node)
-        p = f.params[0]
-        key = f'{f.key}::gather'
-        if not paths or len(paths) != 1 or paths[0][1] is None:
-            ctx.undecided('C05-D2', key, 'returned expression not derivable', f.where())
-            continue
-        e = paths[0][1]
-        tab = None
-        txt = norm(e).replace(' ', '')
-        m = None
-        for t in tabs:
-            forms = (f'{p}.reshape((-1,16))[:,{t}].reshape({p}.shape)', f'{p}[...,{t}]', f'_np.take({p},{t},axis=-1)', f'{p}.take({t},axis=-1)',
-                     f'{p}.reshape(-1,16)[:,{t}].reshape({p}.shape)', f'_np.take({p},{t},-1)')
-            if txt in forms:
-                m = t
-        if m is not None:
-            ctx.check(m == table, 'C05-D2', key, f'{name} gathers the last (16) axis with {m}, not with {table}', f'{name}: out[..., i] = in[..., {table}[i]]', f.where())
-        else:
-            ctx.undecided('C05-D2', key, f'{name} returns `{txt[:70]}`: not a gather of the last axis by one of the ShiftRows tables in a recognised form', f.where())
+            ctx.ok('C05-D2', key, f'{name} = {ref}[state] byte for byte' if kind == 'table' else f'{name}: out[..., i] = in[..., T[i]] with the FIPS-197 row rotation, per state', f.where())
     f = prog.need_func(A, 'add_round_key')
-    paths = astutil.return_paths(inline.inlined(prog, f, skip={'_is_bytes_of_len'}).node)
-    e = paths[0][1] if paths and len(paths) == 1 else None
     key = f'{f.key}::xor'
-    ops = None
-    if isinstance(e, ast.Call) and norm(e.func).split('.')[-1] == 'bitwise_xor' and len(e.args) == 2:
-        ops = [norm(a) for a in e.args]
-    elif isinstance(e, ast.BinOp) and isinstance(e.op, ast.BitXor):
-        ops = [norm(e.left), norm(e.right)]
-    elif isinstance(e, ast.Call) and norm(e.func).split('.')[-1] in ('bitwise_or', 'bitwise_and', 'add', 'subtract') or isinstance(e, ast.BinOp):
-        ctx.fail('C05-D2', key, f'add_round_key computes `{norm(e)[:60]}`, not the xor of state and key', f.where())
-        ops = False
-    if ops is None:
-        ctx.undecided('C05-D2', key, f'add_round_key returns `{norm(e)[:60] if e is not None else "?"}`', f.where())
-    elif ops:
-        ctx.check(sorted(ops) == sorted(f.params), 'C05-D2', key, f'add_round_key xors {ops}, not its two arguments', 'add_round_key = state xor keys', f.where())
+    try:
+        bad = None
+        for sa_, sb_ in (((2, 16), (2, 16)), ((16,), (16,)), ((2, 16), (1, 16))):
+            x, k = pa.PArr.inputs(sa_, 'STATE'), pa.PArr.inputs(sb_, 'KEY')
+            y = MixEval(prog, f.mod).run(f, [x, k])
+            if not isinstance(y, pa.PArr):
+                bad = bad or 'add_round_key does not return an array'
+                continue
+            kb = k.broadcast_to(y.shape) if len(k.flat) != len(y.flat) else k
+            xb = x.broadcast_to(y.shape) if len(x.flat) != len(y.flat) else x
+            for o, got in enumerate(y.flat):
+                if got != (xb.flat[o] | kb.flat[o]) and bad is None:
+                    bad = f'add_round_key: output byte {o % 16} is built from {sorted(got)}, not from state byte {o % 16} xor key byte {o % 16}'
+        ctx.check(bad is None, 'C05-D2', key, bad or '', 'add_round_key = state xor keys, byte for byte', f.where())
+    except pa.Unknown as e:
+        ctx.undecided('C05-D2', key, f'not evaluable: {e}', f.where())
     r = prog.lookup(prog.need_mod(A), 'inv_add_round_key')
     ctx.check(bool(r) and r[0] == 'func' and r[1] is f, 'C05-D2', f'{A}::inv_add_round_key', 'inv_add_round_key is not add_round_key', 'inv_add_round_key is add_round_key', f.where())
 
@@ -191,6 +178,14 @@ class MixEval:
         if isinstance(e, ast.Name):
             if e.id in env:
                 return env[e.id]
+            if e.id in f.mod.assigns:
+                try:
+                    v, _n = tables.literal(self.prog, f.mod.name, e.id)
+                    v = list(v)
+                    if len(v) <= 64 and all(isinstance(x, int) for x in v):
+                        return v          # a small literal index table (a permutation of positions)
+                except Exception:
+                    pass
             raise pa.Unknown(f'{f.name}: name {e.id}')
         if isinstance(e, (ast.Tuple, ast.List)):
             vals = [self.ev(f, x, env) for x in e.elts]
@@ -201,8 +196,8 @@ class MixEval:
                 return -v
         if isinstance(e, ast.BinOp):
             l, r = self.ev(f, e.left, env), self.ev(f, e.right, env)
-            if isinstance(e.op, ast.BitXor) and isinstance(l, pa.PArr) and isinstance(r, pa.PArr):
-                return l.xor(r)
+            if isinstance(e.op, ast.BitXor) and (isinstance(l, pa.PArr) or isinstance(r, pa.PArr)):
+                return l.xor(r) if isinstance(l, pa.PArr) else r.xor(l)
             if isinstance(l, int) and isinstance(r, int) and not isinstance(l, bool):
                 import operator
                 ops = {ast.Add: operator.add, ast.Sub: operator.sub, ast.Mult: operator.mul, ast.FloorDiv: operator.floordiv, ast.Mod: operator.mod}
@@ -287,6 +282,17 @@ class MixEval:
                     return v.roll(sh, ax)
             if name == 'bitwise_xor' and len(e.args) == 2:
                 return self.ev(f, e.args[0], env).xor(self.ev(f, e.args[1], env))
+            if name == 'take' and len(e.args) >= 2 and isinstance(e.args[0], ast.Name) and e.args[0].id not in env and e.args[0].id in f.mod.assigns \
+                    and isinstance(self.ev(f, e.args[1], env), pa.PArr) and arg(2, 'axis') is None:
+                return self.ev(f, e.args[1], env).table(e.args[0].id)
+            if name == 'take' and len(e.args) >= 2:
+                v, idx, ax = arg(0), arg(1), arg(2, 'axis')
+                if isinstance(v, pa.PArr) and isinstance(idx, list) and isinstance(ax, int):
+                    sel = [slice(None)] * len(v.shape)
+                    sel[ax % len(v.shape)] = idx
+                    return v[tuple(sel)]
+                if isinstance(v, str) and isinstance(idx, pa.PArr) and ax is None:
+                    return idx.table(v)
             if name in ('swapaxes',):
                 return arg(0).swapaxes(arg(1), arg(2))
             if name == 'transpose':
@@ -299,6 +305,9 @@ class MixEval:
                 shp.insert(ax % (len(shp) + 1), 1)
                 return v.reshape(shp)
             raise pa.Unknown(f'{f.name}: numpy.{name}')
+        if isinstance(fn, ast.Attribute) and d is None and fn.attr == 'take' and isinstance(fn.value, ast.Name) and fn.value.id not in env and fn.value.id in f.mod.assigns \
+                and len(e.args) == 1 and not kw and isinstance(self.ev(f, e.args[0], env), pa.PArr):
+            return self.ev(f, e.args[0], env).table(fn.value.id)
         if isinstance(fn, ast.Attribute) and d is None:
             v = self.ev(f, fn.value, env)
             if isinstance(v, pa.PArr):
@@ -313,6 +322,12 @@ class MixEval:
                     return v.transpose(a[0] if len(a) == 1 and isinstance(a[0], (tuple, list)) else (a or None))
                 if fn.attr == 'squeeze' and not a:
                     return v.reshape([d_ for d_ in v.shape if d_ != 1])
+                if fn.attr == 'take' and a and isinstance(a[0], list):
+                    ax = a[1] if len(a) > 1 else (self.ev(f, kw['axis'], env) if 'axis' in kw else None)
+                    if isinstance(ax, int):
+                        sel = [slice(None)] * len(v.shape)
+                        sel[ax % len(v.shape)] = a[0]
+                        return v[tuple(sel)]
             raise pa.Unknown(f'{f.name}: method `{norm(fn)[:40]}`')
         r = self.prog.resolve(f.mod, fn) if isinstance(fn, (ast.Name, ast.Attribute)) else None
         if r and r[0] == 'func' and self.depth < 3:
